@@ -2,7 +2,9 @@
 
 Case lines (see harness/h_C10.cpp):
   pp <linelength> <prec> <compress> <lossless> <vals>            model + implementation
-  xp ...                                                          implementation only (Spec oracle)
+  pm <linelength> <prec> <compress> <lossless> <vals> <address>  whole message, model + implementation
+  xp / xm ...                                                     implementation only (Spec oracle):
+                                                                  lists with time tags
 The Spec oracle below is the round trip itself evaluated on the implementation's
 output; it never looks at the Coq model.
 """
@@ -100,7 +102,7 @@ def g_scalar(rng, k):
     if k == "h":
         return "h:%d" % g_int(rng, 64)
     if k == "c":
-        return "c:%d" % (rng.choice(ESCAPES + [39, 34, 32]) if rng.random() < 0.3 else rng.choice(PRINTABLE))
+        return "c:%d" % (rng.choice(ESCAPES + [39, 34, 32, 0, 0]) if rng.random() < 0.3 else rng.choice(PRINTABLE))
     if k in "TFNI":
         return k
     if k == "s":
@@ -172,6 +174,25 @@ def g_array(rng):
     ty = ord(el[-1][0]) if el else 32
     return ["a:%d:%d" % (ty, len(el))] + el
 
+def g_run_at_end(rng):
+    """a compressible run that ends exactly at the end of an array (followed by a value that
+    would continue it) or exactly at the end of the list"""
+    k = rng.choice("ihc")
+    m = rng.choice([4, 5, 5, 6, 8])
+    if rng.random() < 0.5:
+        start, step = (rng.randint(48, 90), rng.choice([0, 1, 2])) if k == "c" else (rng.randint(-50, 50), rng.choice([0, 1, -1, 3]))
+    else:
+        start, step = (rng.randint(48, 90), 0) if k == "c" else (rng.randint(-50, 50), 0)
+    run = ["%s:%d" % (k, start + j * step) for j in range(m)]
+    nxt = "%s:%d" % (k, start + m * step)
+    q = rng.random()
+    pre = [g_scalar(rng, rng.choice("TNsr"))] if rng.random() < 0.4 else []
+    if q < 0.6:
+        follow = [nxt] if rng.random() < 0.8 else [g_scalar(rng, k)]
+        more = [g_scalar(rng, rng.choice("iTN"))] if rng.random() < 0.3 else []
+        return pre + ["a:%d:%d" % (ord(k), m)] + run + follow + more
+    return pre + run          # the run ends the list
+
 def gen_struct(rng, tier, dist, n):
     """lists with runs around the compression threshold, arrays, time tags, whole messages"""
     out = []
@@ -184,6 +205,8 @@ def gen_struct(rng, tier, dist, n):
         vals = []
         kind = rng.random()
         parts = rng.choice([1, 1, 2, 3, 4])
+        if rng.random() < 0.12:
+            vals = g_run_at_end(rng); parts = 0; compress = 1; bump("run-at-end")
         for _p in range(parts):
             q = rng.random()
             if q < 0.35:
@@ -206,9 +229,13 @@ def gen_struct(rng, tier, dist, n):
             addr = "/" + "/".join("".join(rng.choice("abcxyz019_#*?") for _ in range(rng.randint(1, 6)))
                                   for _ in range(rng.randint(1, 3)))
             bump("message")
-            out.append("xm %d %d %d 1 %s %s" % (ll, prec, compress, ";".join(vals), addr.encode().hex()))
+            kind = "xm" if any(v.startswith("t:") for v in vals) else "pm"
+            out.append("%s %d %d %d 1 %s %s" % (kind, ll, prec, compress, ";".join(vals), addr.encode().hex()))
         else:
-            out.append("xp %d %d %d 1 %s" % (ll, prec, compress, ";".join(vals)))
+            # time tags (other than in the Spec oracle) are not in the Coq model
+            kind = "xp" if any(v.startswith("t:") for v in vals) else "pp"
+            bump("stream:" + kind)
+            out.append("%s %d %d %d 1 %s" % (kind, ll, prec, compress, ";".join(vals)))
     return out
 
 def gen(rng, tier, dist):
@@ -250,7 +277,7 @@ def canon(case, line):
     if case.startswith("x"):
         return "SKIP"
     # the model does not compute rtosc_arg_vals_eq
-    return " ".join(t for t in line.split(" ") if not t.startswith("EQ=") and not t.startswith("A="))
+    return " ".join(t for t in line.split(" ") if not t.startswith("EQ="))
 
 def _wrap(v, bits):
     m = 1 << bits
@@ -351,12 +378,13 @@ def classify(case, impl, failure):
 TECHNIQUE = ("Coq proofs about a token-level model of the printer, the syntax checker and the scanner "
              "(structural induction over the value list, per-token lemmas) + differential "
              "correspondence against the real functions under ASan/UBSan")
-LEVEL_TEXT = ("Partial. Proved for all option records and unbounded lists of int32, int64, chars, true/false/nil/inf, "
-              "strings and quoted symbols (every escape, every string split, every line break): returned count = text "
-              "length, checker count = number of values, scanner consumes the whole text and returns the values "
-              "(C10_roundtrip_partial, C10_linebreak_transparent, C10_decimal_roundtrip; witnesses C10_roundtrip_refuted_D7/D8/D10 "
-              "against the pre-fix functions). Plain symbols, colours, MIDI, blobs, floats and doubles are in the model and "
-              "in the correspondence run but not in the theorem; ranges, arrays, time tags and messages are checked on the "
-              "implementation by the round-trip oracle only.")
+LEVEL_TEXT = ("Partial. Model: printer (all scalar types, range conversion with threshold 5, N x value and a b ... c "
+              "forms, arrays, messages), checker and scanner (incl. ellipsis handling, arrays, messages); time tags are not "
+              "modelled. Proved for all option records with compression off and unbounded lists of int32, int64, chars, "
+              "true/false/nil/inf, strings and quoted symbols: length, checker count, whole text consumed, values "
+              "(C10_roundtrip_partial, C10_print_total, C10_linebreak_transparent, C10_message_partial); the range conversion "
+              "expands to the values it replaces (C10_range_expand: step runs of i/h/c with wrap-around, constant runs of "
+              "every non-float scalar); both recognisers read NxV repetitions back (C10_repetition_reads_partial). The "
+              "model/implementation stream runs with compression on, arrays and messages.")
 LEVEL_NOTE = ("Trusted: Coq kernel, extraction, OCaml driver (incl. its libc oracle for decimal float literals), harness, "
               "generators. FloatFmt.v (printf %f/%a, hex literal value) is concrete but unproved. See notes/C10.md.")
